@@ -27,6 +27,8 @@ matching semantics *as a whole* are declined.  Decided (shape of the code and of
          is joined whole, outside strict mode without its last element exactly when that is empty (followed by symbolic
          evaluation per mode: ``x[:-1]`` views, pop() / del, copies under other names); the converter map is created
          empty by the call, every binding is recorded, the duplicate test looks at every binding;
+  R05.i  the inherit_slashes option (which decides the mode a route is compiled for) is, wherever a function hands it on to another
+         object's bind() / bind_all(), read from a declaration, never a literal that would silence the declaring object's own default;
   R05.h  match_path: the mapping a match returns holds, for every (name, converter) of self.converters, the converter applied
          once to the text captured for the group of that name (loop, dict comprehension, dict of pairs); the groups of the
          match are read only where the match is known to be one.
@@ -1996,6 +1998,104 @@ def _rule_h_result(rep):
     rep.floor('R05.h', 2)
 
 
+# ---- R05.i ------------------------------------------------------------------------------------------
+
+MODE_OPTION = 'inherit_slashes'
+
+
+def _rule_i_mode_option(rep):
+    """Which slash mode a route is compiled with is decided by ``inherit_slashes`` -- an option that travels, inside **kwargs, from
+    where it is declared (the caller's keyword, the ``inherit_slashes`` attribute of a sub-application) through bind_all() / bind()
+    to BoundRoute.  Every station uses setdefault, so the first value wins: a function that hands the option on to *another*
+    object's bind() / bind_all() may put in a value read from a declaration (``x.inherit_slashes``, ``getattr(x, 'inherit_slashes',
+    d)``, its own parameter), never a literal -- a literal placed upstream silences the declaration downstream."""
+    repo = rep.repo
+    n = 0
+    for modname in ('clastic.application', ROUTE):
+        mod = repo.mod(modname)
+        for q, fi in sorted(mod.functions.items()):
+            me = fi.params()[0] if fi.cls is not None and fi.params() else None
+
+            def option_key(k):
+                """'' when ``k`` is the constant 'inherit_slashes'; the variable's name when it is the variable of a loop over a literal
+                tuple / list of option names that contains it (``for opt in ('rebind_render', 'inherit_slashes')``); else None"""
+                if isinstance(k, ast.Constant):
+                    return '' if k.value == MODE_OPTION else None
+                if isinstance(k, ast.Name) and _stores(fi.node, k.id) == 1:
+                    cur = mod.parents.get(k)
+                    while cur is not None and cur is not fi.node:
+                        if isinstance(cur, ast.For) and isinstance(cur.target, ast.Name) and cur.target.id == k.id:
+                            it = repo.try_fold(cur.iter, mod, default=None) if not isinstance(cur.iter, (ast.Tuple, ast.List)) else \
+                                [e_.value if isinstance(e_, ast.Constant) else None for e_ in cur.iter.elts]
+                            return k.id if isinstance(it, (list, tuple)) and MODE_OPTION in it else None
+                        cur = mod.parents.get(cur)
+                return None
+            sites = []      # (node, name of the dict or None for a keyword of the forwarding call itself, value expression, key variable or '')
+            for x in walk_body(fi.node):
+                if isinstance(x, ast.Call) and isinstance(x.func, ast.Attribute) and isinstance(x.func.value, ast.Name) and x.args and \
+                        x.func.attr == 'setdefault' and option_key(x.args[0]) is not None:
+                    sites.append((x, x.func.value.id, x.args[1] if len(x.args) > 1 else ast.Constant(value=None), option_key(x.args[0])))
+                elif isinstance(x, ast.Call) and isinstance(x.func, ast.Attribute) and isinstance(x.func.value, ast.Name) and x.func.attr == 'update' and \
+                        any(k.arg == MODE_OPTION for k in x.keywords):
+                    sites.append((x, x.func.value.id, [k.value for k in x.keywords if k.arg == MODE_OPTION][0], ''))
+                elif isinstance(x, ast.Subscript) and isinstance(x.ctx, ast.Store) and isinstance(x.value, ast.Name) and option_key(x.slice) is not None:
+                    st = stmt_of(mod, x)
+                    v = st.value if isinstance(st, ast.Assign) and len(st.targets) == 1 and st.targets[0] is x else None
+                    sites.append((x, x.value.id, v, option_key(x.slice)))
+                elif isinstance(x, ast.Call) and any(k.arg == MODE_OPTION for k in x.keywords) and not (isinstance(x.func, ast.Name) and x.func.id == 'dict') and \
+                        (call_tail(x) in ('bind', 'bind_all') or any(k.arg is None for k in x.keywords)):
+                    sites.append((x, None, [k.value for k in x.keywords if k.arg == MODE_OPTION][0], ''))
+                elif isinstance(x, ast.Call) and isinstance(x.func, ast.Name) and x.func.id == 'dict' and any(k.arg == MODE_OPTION for k in x.keywords):
+                    d = _bound_var(mod, x)
+                    if d is not None:
+                        sites.append((x, d, [k.value for k in x.keywords if k.arg == MODE_OPTION][0], ''))
+                elif isinstance(x, ast.Dict) and any(isinstance(k, ast.Constant) and k.value == MODE_OPTION for k in x.keys if k is not None):
+                    d = _bound_var(mod, x)
+                    if d is not None:
+                        sites.append((x, d, [v for k, v in zip(x.keys, x.values) if isinstance(k, ast.Constant) and k.value == MODE_OPTION][0], ''))
+
+            def foreign(call):
+                """the call binds through another object than the one this method belongs to (``rf.bind_all(...)``, or a local that
+                names such a bound method); ``self.x(...)`` / ``super().x(...)`` stay with the declaring object"""
+                f = call.func
+                if isinstance(f, ast.Name):
+                    d = _single_def(fi, f.id)
+                    if isinstance(d, ast.Attribute):
+                        f = d
+                    elif isinstance(d, ast.Call) and isinstance(d.func, ast.Name) and d.func.id == 'getattr' and d.args:
+                        r = d.args[0]
+                        return not (isinstance(r, ast.Name) and r.id == me)
+                    else:
+                        return f.id not in ('dict',)
+                if not isinstance(f, ast.Attribute):
+                    return True
+                r = f.value
+                if isinstance(r, ast.Call) and norm(r.func) == 'super':
+                    return False
+                return not (isinstance(r, ast.Name) and r.id == me)
+            for node, d, v, keyvar in sites:
+                if d is None:
+                    fwd = [node]
+                else:
+                    fwd = [c for c in walk_body(fi.node) if isinstance(c, ast.Call) and
+                           any(k.arg is None and isinstance(k.value, ast.Name) and k.value.id == d for k in c.keywords)]
+                if not any(foreign(c) for c in fwd):
+                    continue
+                n += 1
+                e = _inline(fi, v, stable=(keyvar,) if keyvar else ()) if v is not None else None
+                names_it = lambda a: (isinstance(a, ast.Constant) and a.value == MODE_OPTION) or (bool(keyvar) and isinstance(a, ast.Name) and a.id == keyvar)
+                declared = e is not None and (
+                    (isinstance(e, ast.Attribute) and e.attr == MODE_OPTION and not keyvar) or
+                    (isinstance(e, ast.Call) and isinstance(e.func, ast.Name) and e.func.id == 'getattr' and len(e.args) >= 2 and names_it(e.args[1])) or
+                    (isinstance(e, ast.Name) and e.id in _all_params(fi) and not _stores(fi.node, e.id) and not keyvar))
+                rep.check('R05.i', fkey(fi, '%s handed on' % MODE_OPTION), declared,
+                          '%s hands on an %s read from a declaration (%s)' % (fi.qualname, MODE_OPTION, short(v, 50)) if declared else
+                          '%s puts the literal %s into the %s it hands on to another object\'s bind(): the value declared by that object (a '
+                          'sub-application created with %s=...) never takes effect, its routes are compiled for the wrong slash mode' %
+                          (fi.qualname, short(v, 30) if v is not None else '?', MODE_OPTION, MODE_OPTION), mod, node)
+    rep.floor('R05.i', 2)
+
+
 # ---- R05.f ------------------------------------------------------------------------------------------
 
 def _rule_f(rep, pats, seg):
@@ -2033,6 +2133,7 @@ def run(rep):
     rep.rule('R05.f', 'language equality of the instantiated segment template with an independent specification')
     rep.rule('R05.g', 'construction of the joined list: fresh per call, one element per literal part, binding segments glued, trailing trim per mode')
     rep.rule('R05.h', 'match_path: result[name] = converter(group name) for every converter; that mapping is returned')
+    rep.rule('R05.i', 'provenance of the inherit_slashes option on its way to BoundRoute: read from a declaration wherever it is handed on')
     rep.repo.mod(ROUTE)          # anchor module: its absence is an analysis error of the whole property
 
     tt = _guarded(rep, _type_tables, rep)
@@ -2057,3 +2158,4 @@ def run(rep):
     if R is not None:
         _guarded(rep, _rule_g_segments, rep, R)
     _guarded(rep, _rule_h_result, rep)
+    _guarded(rep, _rule_i_mode_option, rep)
